@@ -1421,6 +1421,14 @@ int htp_connp_res_data(htp_connp_t *connp, const htp_time_t *timestamp, const vo
                 return HTP_STREAM_DATA;
             }
 
+            // Raw data not yet sent to the data receiver lives in the caller's chunk. When this
+            // call ends in stop or a fatal error nobody flushes it and the chunk will be gone
+            // when we return, so forget the receiver rather than hand out a stale pointer from
+            // a later finalization.
+            if (rc != HTP_DATA_OTHER) {
+                connp->out_data_receiver_hook = NULL;
+            }
+
             // Check for stop
             if (rc == HTP_STOP) {
                 #ifdef HTP_DEBUG
